@@ -6,7 +6,7 @@ import time
 from . import build
 
 KNOWN = os.path.join(build.VERIF, "known_findings.jsonl")
-EVID = os.path.join(build.VERIF, "evidence")
+EVID = os.environ.get("GPA_EVIDENCE_DIR") or os.path.join(build.VERIF, "evidence")
 
 
 class BrokenChecker(Exception):
